@@ -39,7 +39,7 @@ ENCODING = [
     [1, 32, 64],
 ]
 
-VALID = rf"^{re.escape(MAGIC)}[{re.escape(''.join(NUM_ALPHA))}]{{4,}}$"
+VALID = rf"^{re.escape(MAGIC)}[{re.escape(''.join(NUM_ALPHA))}]{{4,}}\Z"
 
 
 def juniper_decrypt(crypt: str) -> str:
